@@ -19,10 +19,24 @@ func init() {
 	rt.Register("H_C04_recv", H_C04_recv)
 }
 
-const c04Setup = `P := {
-  act: m{|d| raise ValueErr.new("neg") if self.v < 0; return nil if self.v == 0; self.v + d},
-  comb: m{|e, d| raise ValueErr.new("neg") if e.v < 0; return nil if e.v == 0; P.bear({v: self.v + e.v + d})},
+// NIL is nil itself or a nil made with Nil.bear(...).new (prints as nil, == nil, NilType)
+const c04SetupNil = `NIL := nil`
+const c04SetupInheritedNil = `NilKid := Nil.bear({}); NIL := NilKid.new`
+const c04SetupP = `P := {
+  act: m{|d| raise ValueErr.new("neg") if self.v < 0; return NIL if self.v == 0; self.v + d},
+  comb: m{|e, d| raise ValueErr.new("neg") if e.v < 0; return NIL if e.v == 0; P.bear({v: self.v + e.v + d})},
 }`
+
+func c04Setup(h *H, inheritedNil bool) {
+	if inheritedNil {
+		h.Eval(c04SetupInheritedNil)
+	} else {
+		h.Eval(c04SetupNil)
+	}
+	h.Eval(c04SetupP)
+}
+
+func isNilLike(o object.PanObject) bool { return o != nil && o.Type() == object.NilType }
 
 // outcome of the callee on one element, decided by the element's (symbolic) payload
 type c04Out struct {
@@ -38,8 +52,9 @@ type c04Elem struct {
 
 func c04MakeElem(h *H, name string, allowNil bool) c04Elem {
 	if allowNil && rt.Bool() {
-		h.Set(name, object.BuiltInNil)
-		return c04Elem{isNil: true, obj: object.BuiltInNil}
+		n := h.Eval(`NIL`)
+		h.Set(name, n)
+		return c04Elem{isNil: true, obj: n}
 	}
 	x := rt.Int64()
 	rt.Assume(x > -1000 && x < 1000)
@@ -65,7 +80,7 @@ func c04IsOut(res object.PanObject, o c04Out) bool {
 	case 0:
 		return isInt(res, o.val)
 	case 1:
-		return isNil(res)
+		return isNilLike(res)
 	case 2:
 		e, ok := res.(*object.PanErr)
 		return ok && e.ErrKind == object.ValueErr && e.Msg == "neg"
@@ -116,7 +131,7 @@ func H_C04_list() {
 	n, ci := rt.Param(0), rt.Param(1)
 	chain := c04ListChains[ci]
 	h := NewH()
-	h.Eval(c04Setup)
+	c04Setup(h, rt.Param(3) == 1)
 	elems := make([]c04Elem, n)
 	names := ""
 	for i := range elems {
@@ -205,7 +220,7 @@ func H_C04_reduce() {
 	n, ci := rt.Param(0), rt.Param(1)
 	chain := c04ReduceChains[ci]
 	h := NewH()
-	h.Eval(c04Setup)
+	c04Setup(h, rt.Param(2) == 1)
 	elems := make([]c04Elem, n)
 	names := ""
 	for i := range elems {
@@ -262,7 +277,7 @@ func H_C04_reduce() {
 		case out == 3:
 			rt.Assert(isErrKind(res, object.NoPropErr), "a failing call aborts the reduce chain with its error ("+form+")")
 		case accNil:
-			rt.Assert(isNil(res), "the reduce chain returns the last accumulator ("+form+")")
+			rt.Assert(isNilLike(res), "the reduce chain returns the last accumulator ("+form+")")
 		default:
 			o, ok := res.(*object.PanObj)
 			rt.Assert(ok, "the reduce chain folds left from the chain argument ("+form+")")
@@ -284,7 +299,7 @@ var c04ScalarChains = []string{".", "=.", "~.", "&."}
 func H_C04_scalar() {
 	chain := c04ScalarChains[rt.Param(0)]
 	h := NewH()
-	h.Eval(c04Setup)
+	c04Setup(h, rt.Param(1) == 1)
 	e := c04MakeElem(h, "e0", true)
 	h.Eval(`f := {|e| e.act(10)}`)
 	prop := h.EvalNoPanic(`e0` + chain + `act(10)`)
@@ -304,7 +319,7 @@ func H_C04_scalar() {
 			}
 		case "&.":
 			if e.isNil {
-				rt.Assert(isNil(res), "the lonely chain skips the call for a nil receiver ("+form+")")
+				rt.Assert(isNilLike(res), "the lonely chain skips the call for a nil receiver ("+form+")")
 			} else {
 				rt.Assert(c04IsOut(res, o), "the lonely chain calls a non-nil receiver ("+form+")")
 			}
